@@ -70,6 +70,15 @@ def judge_listing(ctx, ws, text, origin):
                          f"stream is not the concatenation of 'addr::mnemonic,op,...,|' records of the {len(want)} instructions the parser produced: "
                          f"{s[:120]!r} vs {stream.encode(want)[:120]!r}")
         return
+    # (1b) the same matcher object asked a second time hands the matcher the same text (nothing accumulates)
+    if ctx.rng.random() < 0.3:
+        rt = real.match_twice(ws.write("_stream_rule.yaml", "pattern:\n  - zzzzzz\n"), p, ret="stream")
+        ctx.ran(2)
+        ctx.event("same_object_asked_twice")
+        if rt[0] == "ok" and (rt[1] != s or rt[2] != s):
+            ctx.disagreement({"origin": origin, "listing": text[:100000]},
+                             f"perform_matching() twice on one object: the stream of the 2nd call has {str(rt[2]).count('|')} records, the input encodes to {s.count('|')}")
+            return
     # (2) hygiene, record by record: decode(encode(inst)) == inst
     ctx.event("streams_decoded")
     by_addr = {}
